@@ -14,7 +14,7 @@ import (
 // reported under "late"). The Lean driver replays the same ops on the model (two `MuxSt`
 // joined by wires) and accepts or rejects every single result.
 type Op struct {
-	Op   string `json:"op"` // open dial listen accept acceptbg lclose write read readbg join closeconn closemux cut
+	Op   string `json:"op"` // open dial listen accept acceptbg lclose write read readbg join closeconn closemux cut tear
 	End  int    `json:"end"`
 	H    int    `json:"h"`  // conn handle (index of the conn object at that end) / listener index
 	ID   uint32 `json:"id"` // open/dial/listen
@@ -231,6 +231,10 @@ func RunScript(in ScriptIn) ScriptObs {
 			e.tap.CutAfter(op.K)
 			obs.Res[i] = Res{R: "ok"}
 			continue
+		case "tear":
+			e.tap.Tear(op.K)
+			obs.Res[i] = Res{R: "ok"}
+			continue
 		case "join":
 			// wait for the background op issued as op number K
 			found := -1
@@ -300,10 +304,18 @@ func RunScript(in ScriptIn) ScriptObs {
 	}
 	obs.TrunkAB = Hex(ends[0].tap.Bytes())
 	obs.TrunkBA = Hex(ends[1].tap.Bytes())
-	// tidy up (not part of the observation)
-	for _, e := range ends {
-		e.m.Close()
-		e.tap.Conn.Close()
+	// tidy up (not part of the observation; a Close that hangs must not hang the harness)
+	tidy := make(chan struct{})
+	go func() {
+		for _, e := range ends {
+			e.tap.Conn.Close()
+			e.m.Close()
+		}
+		close(tidy)
+	}()
+	select {
+	case <-tidy:
+	case <-time.After(time.Second):
 	}
 	return obs
 }
